@@ -8,11 +8,11 @@ Open Scope Z_scope.
 
 Definition d_tr (g : gtfcfg) (st : ist) (t gn : str) : result (list row) :=
   if g_no_transcripts g then Ok []
-  else match extent g st t with Some x => Ok [t_row g t gn x] | None => Err EValue end.
+  else match extent g st t with Some x => Ok [t_row g t gn x] | None => Err EType end.
 Definition d_ge (g : gtfcfg) (st : ist) (last : option str) (gn : str) : result (list row) :=
   if g_no_genes g then Ok []
   else if match last with Some l => str_eqb l gn | None => false end then Ok []
-  else match extent g st gn with Some x => Ok [g_row g gn x] | None => Err EValue end.
+  else match extent g st gn with Some x => Ok [g_row g gn x] | None => Ok [] end.
 
 Lemma derive_cons g st t gn ps last :
   derive g st ((t, gn) :: ps) last =
@@ -54,7 +54,7 @@ Proof.
       exists t, gn, x. split; [left; reflexivity|left; split; [reflexivity|exact E]].
     + unfold d_ge in Hb. destruct (g_no_genes g); [inversion Hb; subst; contradiction|].
       destruct (match last with Some l => str_eqb l gn | None => false end); [inversion Hb; subst; contradiction|].
-      destruct (extent g st gn) as [x|] eqn:E; [|discriminate]. inversion Hb; subst. destruct Hd as [<-|[]].
+      destruct (extent g st gn) as [x|] eqn:E; [|inversion Hb; subst; contradiction]. inversion Hb; subst. destruct Hd as [<-|[]].
       exists t, gn, x. split; [left; reflexivity|right; split; [reflexivity|exact E]].
     + destruct (IH _ _ Hc d Hd) as (t' & gn' & x & Hin & Hx). exists t', gn', x. split; [right; exact Hin|exact Hx].
 Qed.
@@ -70,24 +70,23 @@ Proof.
   - destruct (IH _ _ Hc t gn Hin) as [x [E I]]. exists x. split; [exact E|]. apply in_or_app. right. apply in_or_app. right. exact I.
 Qed.
 
-(* ... and every pair's gene its gene row (the same gene on consecutive pairs is written once) *)
+(* ... and every pair's gene that owns a subfeature its gene row (the same gene on consecutive pairs is written once; a gene
+   id under which no subfeature is filed has no extent and is skipped) *)
 Lemma derive_genes g st : g_no_genes g = false -> forall ps last ds, derive g st ps last = Ok ds ->
-  forall t gn, In (t, gn) ps -> (exists x, extent g st gn = Some x /\ In (g_row g gn x) ds) \/ last = Some gn.
+  forall t gn x, In (t, gn) ps -> extent g st gn = Some x -> In (g_row g gn x) ds \/ last = Some gn.
 Proof.
-  intros NG. induction ps as [|[t0 gn0] ps IH]; intros last ds H t gn Hin; [contradiction|].
+  intros NG. induction ps as [|[t0 gn0] ps IH]; intros last ds H t gn x Hin Hx; [contradiction|].
   apply derive_inv in H as (a & b & c & Ha & Hb & Hc & ->).
-  assert (Head : (exists x, extent g st gn0 = Some x /\ In (g_row g gn0 x) (a ++ b ++ c)) \/ last = Some gn0).
-  { unfold d_ge in Hb. rewrite NG in Hb. destruct last as [l|].
+  assert (Head : forall y, extent g st gn0 = Some y -> In (g_row g gn0 y) (a ++ b ++ c) \/ last = Some gn0).
+  { intros y Hy. unfold d_ge in Hb. rewrite NG, Hy in Hb. destruct last as [l|].
     - destruct (str_eqb l gn0) eqn:E; [right; apply str_eqb_eq in E; subst; reflexivity|].
-      destruct (extent g st gn0) as [x|]; [|discriminate]. inversion Hb; subst. left. exists x. split; [reflexivity|].
-      apply in_or_app. right. left. reflexivity.
-    - destruct (extent g st gn0) as [x|]; [|discriminate]. inversion Hb; subst. left. exists x. split; [reflexivity|].
-      apply in_or_app. right. left. reflexivity. }
+      inversion Hb; subst. left. apply in_or_app. right. left. reflexivity.
+    - inversion Hb; subst. left. apply in_or_app. right. left. reflexivity. }
   destruct Hin as [E|Hin].
-  - inversion E; subst. exact Head.
-  - destruct (IH _ _ Hc t gn Hin) as [[x [E I]]|L].
-    + left. exists x. split; [exact E|]. apply in_or_app. right. apply in_or_app. right. exact I.
-    + inversion L; subst. exact Head.
+  - inversion E; subst. exact (Head x Hx).
+  - destruct (IH _ _ Hc t gn x Hin Hx) as [I|L].
+    + left. apply in_or_app. right. apply in_or_app. right. exact I.
+    + inversion L; subst. exact (Head x Hx).
 Qed.
 
 Lemma did_t g t gn x : str_eqb (g_gkey g) (g_tkey g) = false -> did g (t_row g t gn x) = t.
@@ -200,14 +199,13 @@ Section End2End.
     apply (find_id_unique _ _ (l_gtf_ids_unique g st ds N1 N2 Hnew)) in R. exact R.
   Qed.
 
-  Theorem l_gene_inferred g st ds t gn : g_no_genes g = false ->
+  Theorem l_gene_inferred g st ds t gn x : g_no_genes g = false ->
     derive g st (tg_pairs g st) None = Ok ds -> NoDup (map r_id (s_rows st)) -> NoDup (map (did g) ds) ->
     (forall d, In d ds -> has_id (did g d) (s_rows st) = false) -> In (t, gn) (tg_pairs g st) ->
-    exists x, extent g st gn = Some x /\
-      find_id gn (s_rows st ++ appended g ds) = Some (set_bin (set_id gn (g_row g gn x))).
+    extent g st gn = Some x ->
+    find_id gn (s_rows st ++ appended g ds) = Some (set_bin (set_id gn (g_row g gn x))).
   Proof.
-    intros NG Hd N1 N2 Hnew Hin. destruct (derive_genes g st NG _ _ _ Hd t gn Hin) as [[x [E I]]|L]; [|discriminate].
-    exists x. split; [exact E|].
+    intros NG Hd N1 N2 Hnew Hin E. destruct (derive_genes g st NG _ _ _ Hd t gn x Hin E) as [I|L]; [|discriminate].
     assert (R : In (set_bin (set_id gn (g_row g gn x))) (s_rows st ++ appended g ds)).
     { apply in_or_app. right. unfold appended. apply in_map_iff. exists (g_row g gn x). split; [|exact I].
       rewrite did_g. reflexivity. }
